@@ -29,6 +29,36 @@ CHECKS = {
                   "recorded traces validated by TLC (trace validation)",
         ref="DESIGN.md section 4 C01, section 3.1",
     ),
+    "C05": dict(
+        text="Journal file: JournalFile.tla models append_logs/read_logs and both lock classes one system call per "
+             "action, with Crash enabled at every point of an append and the grace-period takeover; TLC checks "
+             "MutualExclusion, LogIntact, AckedSurvive/InOrder and sound reads exhaustively on bounded instances (and that "
+             "the pre-repair design and the recorded finding K4 are reachable). The REAL code runs over a syscall-shim "
+             "file system: TLC -simulate crash behaviours are replayed step by step (call kind and state compared), "
+             "random crash schedules and one execution per byte offset of a torn record are recorded, and TLC validates "
+             "every execution against the property-level trace spec (acknowledged appends visible to survivors and fresh "
+             "readers, torn record all-or-nothing, readers never fail).",
+        note="Trusted: TLC, the shim's file-system semantics (atomic create/rename, chunked append), process death = no "
+             "further step. Grace period assumed longer than live critical sections. SQLite statement-boundary crashes "
+             "are not yet covered by this check. Known finding K4 (takeover race) is checked-modulo.",
+        technique="TLA+ syscall-level spec model-checked with TLC; TLC crash behaviours replayed into the real code over "
+                  "a syscall shim; recorded executions validated by TLC (trace validation)",
+        ref="DESIGN.md section 4 C05, section 3.3",
+    ),
+    "C07": dict(
+        text="Same specification pair without crashes: every interleaving of 2 appenders and 1-2 readers at system-call "
+             "granularity with writes in 2 pieces is model-checked (mutual exclusion, intact totally ordered log, sound "
+             "reads, exact offset cache); TLC behaviours are replayed step by step into the real JournalFileBackend with "
+             "both lock classes (control-flow and state conformance), larger random schedules (3 writers x 3 appends, "
+             "multi-record appends, random byte-level chunking, warm caches) are recorded, and every execution is validated "
+             "by TLC: each read returns exactly records k..m covering all appends finished before it began, the cached "
+             "offsets are exact, at most one live lock holder.",
+        note="Trusted: TLC, the shim's file-system semantics; preemption is at system calls of the file backend (the "
+             "only shared state is the file system), not at bytecodes.",
+        technique="TLA+ syscall-level spec model-checked with TLC; TLC behaviours replayed into the real code; recorded "
+                  "executions validated by TLC (trace validation)",
+        ref="DESIGN.md section 4 C07, section 3.3",
+    ),
     "C15": dict(
         text="TLC decides every answer of the real kernels: hypervolume = number of dominated lattice cells, rank = "
              "peeling (plain/constrained, n_below contract), HSSP answer within (1-1/e) of the exhaustive best subset. "
